@@ -29,8 +29,10 @@ HALFPI == G \div 2
 \* corners: sequence of four <<lon, lat>>
 Lons(cs) == [i \in 1..4 |-> cs[i][1]]
 Lats(cs) == [i \in 1..4 |-> cs[i][2]]
-MinOf(s) == CHOOSE m \in {s[i] : i \in DOMAIN s} : \A i \in DOMAIN s : m <= s[i]
-MaxOf(s) == CHOOSE m \in {s[i] : i \in DOMAIN s} : \A i \in DOMAIN s : m >= s[i]
+Min2(a, b) == IF a < b THEN a ELSE b
+Max2(a, b) == IF a > b THEN a ELSE b
+MinOf(s) == Min2(Min2(s[1], s[2]), Min2(s[3], s[4]))      \* s: four numbers
+MaxOf(s) == Max2(Max2(s[1], s[2]), Max2(s[3], s[4]))
 
 LatReject(cs, latmin, latmax) == latmin > MaxOf(Lats(cs)) \/ latmax < MinOf(Lats(cs))
 \* `tile_lat_max > 1.5707963 or tile_lat_min < -1.5707963`: the threshold sits just inside the pole, i.e.
@@ -85,7 +87,9 @@ HullMeets(cs, box) ==
        \/ LET arc == MinArc(Lons(cs)) IN ArcMeets(arc[1], arc[2], box.lonmin, box.lonmax)
 
 \* ------------------------------------------------------------------ the case space
-\* tile: base longitude, three even offsets (span <= PI - 2 < pi), a branch shift per corner, a latitude per corner
+\* A tile is built from its ground truth: the minimal arc starts at `base` (corner 1), the other corners sit at
+\* even offsets <= PI - 2 (so the arc is < pi and unique), every corner is then moved to an arbitrary branch
+\* (ks) and given a latitude.  Every 4-set of longitudes with a minimal arc < pi arises this way.
 Evens(S) == {x \in S : x % 2 = 0}
 Odds(S)  == {x \in S : x % 2 # 0}
 Bases    == Evens(0..(TWOPI - 1))
@@ -105,47 +109,62 @@ LatFamWs    == <<2, PI, TWOPI + 2>>
 LatFamOffs  == {<<0, 2, 0>>, <<2, 2, 0>>}
 LatFamKs    == {[i \in 1..4 |-> 0], [i \in 1..4 |-> IF i = 2 THEN -1 ELSE 0]}
 
-VARIABLES fam, base, offs, ks, lats, bmin, w, latbox
-vars == <<fam, base, offs, ks, lats, bmin, w, latbox>>
+MkCorners(b, o, kk, ll) == [i \in 1..4 |-> <<b + (IF i = 1 THEN 0 ELSE o[i - 1]) + kk[i] * TWOPI, ll[i]>>]
+MkBox(bm, ww, lb) == [lonmin |-> bm, lonmax |-> bm + ww, latmin |-> lb[1], latmax |-> lb[2]]
 
-Corners == [i \in 1..4 |-> <<base + (IF i = 1 THEN 0 ELSE offs[i - 1]) + ks[i] * TWOPI, lats[i]>>]
-Box     == [lonmin |-> bmin, lonmax |-> bmin + w, latmin |-> latbox[1], latmax |-> latbox[2]]
-Verdict == Accept(Corners, Box)
+\* state: ph = "tile" (a tile has been chosen, the box is a placeholder) or "case" (tile and box chosen)
+\*   fam  "lon": every longitude configuration x every longitude box, mid latitudes
+\*        "lat": every latitude configuration x every latitude box, a few longitude configurations/boxes
+\*   hull = <<lo, hi>> the minimal arc of the corner longitudes, known by construction
+VARIABLES fam, ph, hull, cs, box
+vars == <<fam, ph, hull, cs, box>>
 
-\* family "lon": every longitude configuration, mid latitudes, latitude box around them
-\* family "lat": every latitude configuration and latitude box, a few longitude configurations
-InitLon == /\ fam = "lon" /\ base \in Bases /\ offs \in Offsets \X Offsets \X Offsets /\ ks \in [1..4 -> Branches]
-           /\ lats = [i \in 1..4 |-> MidLat] /\ latbox = MidLatBox
-           /\ bmin \in BoxMins /\ w \in Widths
-InitLat == /\ fam = "lat" /\ base \in LatLonBases /\ offs \in LatFamOffs /\ ks \in LatFamKs
-           /\ lats \in [1..4 -> LatVals] /\ latbox \in LatBoxes
-           /\ bmin \in {LatFamBmins[i] : i \in 1..3} /\ w \in {LatFamWs[i] : i \in 1..3}
+InitLon == /\ fam = "lon" /\ ph = "tile"
+           /\ \E b \in Bases, o \in Offsets \X Offsets \X Offsets, kk \in [1..4 -> Branches] :
+                 /\ cs = MkCorners(b, o, kk, [i \in 1..4 |-> MidLat])
+                 /\ hull = <<b, b + Max2(o[1], Max2(o[2], o[3]))>>
+           /\ box = MkBox(1 - TWOPI, 2, MidLatBox)
+InitLat == /\ fam = "lat" /\ ph = "tile"
+           /\ \E b \in LatLonBases, o \in LatFamOffs, kk \in LatFamKs, ll \in [1..4 -> LatVals] :
+                 /\ cs = MkCorners(b, o, kk, ll)
+                 /\ hull = <<b, b + Max2(o[1], Max2(o[2], o[3]))>>
+           /\ box = MkBox(1 - TWOPI, 2, MidLatBox)
 Init == InitLon \/ InitLat
 
-\* Steps that do not change the geometry: a corner moves to another branch of its longitude, the box moves
-\* by a whole turn.  The "lon" family is closed under them; the "lat" family has no steps.
-Rebranched(i) == [ks EXCEPT ![i] = -1 - ks[i]]
-Rebranch(i)  == /\ fam = "lon" /\ ks' = Rebranched(i) /\ UNCHANGED <<fam, base, offs, lats, bmin, w, latbox>>
-TurnBox      == /\ fam = "lon" /\ bmin' \in {bmin + TWOPI, bmin - TWOPI} /\ bmin' \in BoxMins
-                /\ UNCHANGED <<fam, base, offs, ks, lats, w, latbox>>
-Next == (\E i \in 1..4 : Rebranch(i)) \/ TurnBox
+PickBox == /\ ph = "tile" /\ ph' = "case"
+           /\ \/ fam = "lon" /\ \E bm \in BoxMins, ww \in Widths : box' = MkBox(bm, ww, MidLatBox)
+              \/ fam = "lat" /\ \E i \in 1..3, j \in 1..3, lb \in LatBoxes : box' = MkBox(LatFamBmins[i], LatFamWs[j], lb)
+           /\ UNCHANGED <<fam, hull, cs>>
+\* Steps that do not change the geometry: a corner moves by a whole turn, the box moves by a whole turn.
+Turn(x) == IF x >= 0 THEN x - TWOPI ELSE x + TWOPI
+Rebranch(i) == /\ ph = "case" /\ fam = "lon"
+               /\ cs' = [cs EXCEPT ![i] = <<Turn(cs[i][1]), cs[i][2]>>]
+               /\ UNCHANGED <<fam, ph, hull, box>>
+TurnBox     == /\ ph = "case" /\ fam = "lon"
+               /\ box' = [box EXCEPT !.lonmin = Turn(@), !.lonmax = Turn(box.lonmin) + (box.lonmax - box.lonmin)]
+               /\ UNCHANGED <<fam, ph, hull, cs>>
+Next == PickBox \/ (\E i \in 1..4 : Rebranch(i)) \/ TurnBox
 Spec == Init /\ [][Next]_vars
 
+Verdict == Accept(cs, box)
+\* ground truth with the arc known by construction
+Meets == /\ LatMeets(cs, box.latmin, box.latmax)
+         /\ (TouchesPole(cs) \/ ArcMeets(hull[1], hull[2], box.lonmin, box.lonmax))
+
 \* ------------------------------------------------------------------ theorems (INVARIANTs / action property)
-NoFalseNegative == HullMeets(Corners, Box) => Verdict
-\* the converse away from the poles: the test is exact on the corner hull (not needed by C07, documents tightness)
-NoFalsePositive == (Verdict /\ ~PoleAccept(Corners)) => HullMeets(Corners, Box)
+\* (the placeholder box of a "tile" state is a case like any other, so no guard on ph is needed)
+NoFalseNegative == Meets => Verdict
+\* the converse away from the poles: the test is exact on the corner hull (not needed by C07; documents tightness
+\* and makes the verdict a function of the geometry alone)
+NoFalsePositive == (Verdict /\ ~PoleAccept(cs)) => Meets
 \* the verdict depends on the geometry only, not on the branch a longitude is given on
-BranchFree == [][Verdict' = Verdict]_vars
-\* the same as a state predicate (every neighbour of the state has the same verdict)
-CornersWith(kk) == [i \in 1..4 |-> <<base + (IF i = 1 THEN 0 ELSE offs[i - 1]) + kk[i] * TWOPI, lats[i]>>]
-BranchFreeInv ==
-    /\ \A i \in 1..4 : Accept(CornersWith(Rebranched(i)), Box) = Verdict
-    /\ \A d \in {-TWOPI, TWOPI} : Accept(Corners, [Box EXCEPT !.lonmin = @ + d, !.lonmax = @ + d]) = Verdict
-\* the sorting network sorts, the unwrap loop ends with a span <= pi and keeps the multiset modulo 2*pi
-SortOK == LET s == Sort4(Lons(Corners)) IN \A i \in 1..3 : s[i] <= s[i + 1]
-UnwrapOK == LET s == Unwrap(Sort4(Lons(Corners)))
+BranchFree == [][ph = "case" => Verdict' = Verdict]_vars
+\* the sorting network sorts; the unwrap loop ends sorted with exactly the minimal arc
+SortOK == LET s == Sort4(Lons(cs)) IN \A i \in 1..3 : s[i] <= s[i + 1]
+UnwrapOK == LET s == Unwrap(Sort4(Lons(cs)))
             IN /\ \A i \in 1..3 : s[i] <= s[i + 1]
                /\ s[4] - s[1] <= PI
-               /\ LET arc == MinArc(Lons(Corners)) IN s[1] % TWOPI = arc[1] /\ s[4] - s[1] = arc[2] - arc[1]
+               /\ s[1] % TWOPI = hull[1] /\ s[4] - s[1] = hull[2] - hull[1]
+\* the arc known by construction is the minimal arc as defined from the longitudes alone
+HullIsMinArc == MinArc(Lons(cs)) = hull
 =============================================================================
